@@ -272,7 +272,38 @@ def r4(F, R):
             if sd and sd[0] == s_d:
                 sent.append(s)
         R.check(len(sent) == 1 and ex.dominates(sent[0], fin_ev[0][0]), "leftovers-sent", s_d, "", "the leftover Finished events are not sent before run-Finished")
-    R.floor(3)
+        # nesting of the leftovers: every open rule is closed before any open feature (a rule's bracket lies inside its feature's)
+        def drained_kind(b, t2):
+            sl = A.slice_back(b, [t2["args"][0]])
+            tys = " ".join(e.get("t", "") for _, st in b.assigns() for pl in A.rvalue_places(st["rv"]) for e in pl["p"] if isinstance(e, dict) and "t" in e
+                           and (e.get("o"), e.get("n")) in sl.fields)
+            return "rule" if "gherkin::Rule" in tys else "feature"
+        chains = [(s, t) for s, t in cb.calls(lambda t: callee_is(t, r"Iterator::chain$"))]
+        order_ok = None
+        if len(chains) == 1:
+            t = chains[0][1]
+            kinds = []
+            for a in t["args"][:2]:
+                sl = A.slice_back(cb, [a])
+                ds = [drained_kind(cb, t2) for _, t2 in sl.calls if callee_is(t2, r"HashMap::<.*>::drain$")]
+                kinds.append(ds)
+            order_ok = kinds == [["rule"], ["feature"]]
+            why = f"chain({kinds[0]}, {kinds[1]})"
+        else:
+            # sequential form: the rule map is drained (and its events pushed / extended) before the feature map
+            ds = [(s, drained_kind(cb, t2)) for s, t2 in cb.calls(lambda t2: callee_is(t2, r"HashMap::<.*>::drain$"))]
+            if len(ds) == 2 and not chains:
+                (s1, k1), (s2, k2) = ds
+                if cb.dominates(s2, s1):
+                    (s1, k1), (s2, k2) = (s2, k2), (s1, k1)
+                order_ok = (k1, k2) == ("rule", "feature") and cb.dominates(s1, s2)
+                why = f"{k1} map drained first"
+        if order_ok is None:
+            R.unverifiable("leftovers-rules-before-features", "the closing sweep is neither rules.chain(features) nor two sequential drains", cb)
+        else:
+            R.check(order_ok, "leftovers-rules-before-features", cb, "rules.drain().chain(features.drain())",
+                    f"the closing sweep closes features before the rules inside them ({why}): under fail-fast Rule::Finished arrives after its Feature::Finished")
+    R.floor(4)
 
 
 def r5(F, R):
@@ -329,4 +360,11 @@ def r5(F, R):
     R.floor(2)
 
 
-RULES = [("R1", r1, None), ("R2", r2, None), ("R3", r3, None), ("R4", r4, None), ("R5", r5, None)]
+def r6(F, R):
+    """What trips fail-fast is the attempt's verdict: message.3 = is_failed (R1) and is_failed classifies a failed before hook, a failed
+    step and a failed after hook as failed (C05.R2's table) — a final failure the verdict does not see cannot stop the run."""
+    from . import c05
+    c05.r2(F, R)
+
+
+RULES = [("R1", r1, None), ("R2", r2, None), ("R3", r3, None), ("R4", r4, None), ("R5", r5, None), ("R6", r6, None)]
